@@ -40,7 +40,44 @@ def capture_safe_preserve(src, preserve=frozenset()):
         main.format_code(src, safe=True, preserve=preserve)
     finally:
         main._multi_run_fixes = orig
+    if seen and any(x != seen[0] for x in seen):
+        return {"<calls of _multi_run_fixes within one format_code got different preserve sets>"} | set().union(*seen)
     return seen[0] if seen else None
+
+
+def capture_all_preserve(src, preserve=frozenset(), safe=True):
+    """the preserve argument of EVERY rule call that takes one during format_code(safe=...) (the rules run for real)"""
+    import functools
+    import types
+
+    seen = []
+    originals = []
+    for m in ("fixes", "object_oriented", "abstractions"):
+        mod = importlib.import_module("pyrefact." + m)
+        for name in dir(mod):
+            f = getattr(mod, name)
+            if isinstance(f, types.FunctionType) and f.__module__ == mod.__name__ and not name.startswith("_"):
+                code = getattr(getattr(f, "_fix_func", f), "__code__", None)
+                if code is None or "preserve" not in code.co_varnames[: code.co_argcount + code.co_kwonlyargcount]:
+                    continue
+
+                def wrap(f=f, label=m + "." + name):
+                    @functools.wraps(f)
+                    def g(source, *a, **k):
+                        p = k.get("preserve", a[0] if a else None)
+                        if p is not None:
+                            seen.append((label, frozenset(p)))
+                        return f(source, *a, **k)
+                    return g
+                originals.append((mod, name, f))
+                setattr(mod, name, wrap())
+    main = importlib.import_module("pyrefact.main")
+    try:
+        main.format_code(src, safe=safe, preserve=preserve)
+    finally:
+        for mod, name, f in originals:
+            setattr(mod, name, f)
+    return seen
 
 
 LIB_TEMPLATES = [
